@@ -1016,7 +1016,9 @@ impl<'a, 'src: 'a> Compiler<'a, 'src> {
       .offset_line(offset as usize)
       .expect("Line offset out of bounds");
 
-    self.write_instruction(op_code, line as u16 + 1);
+    // the line table holds u16 line numbers, later lines are reported as the last representable one
+    let line = line.min(u16::MAX as usize - 1) as u16 + 1;
+    self.write_instruction(op_code, line);
   }
 
   /// write instruction to the current function
